@@ -7,7 +7,7 @@ OPS = '{"Start","Begin","Step","Results","KeepAlive","Stop","End","Metrics"}'
 
 def consts(insts, stop, kv='{0,3}', sv='{0}'):
     return dict(Inst=insts, Timeouts='{9}', Ticks='{}', KVals=kv, StepVals=sv, Stop=str(stop), MaxNow='0',
-                Scen='{"base","high"}', Ops=OPS, Adapter="FALSE", Compress='FALSE', Dev='{}')
+                Scen='{"base","high"}', Ops=OPS, Adapter="FALSE", Compress='FALSE', Kinds='{}', Creds='{}', Dev='{}')
 
 
 def solo(hist, i):
